@@ -147,6 +147,7 @@ pub fn spec_c12() -> PropSpec {
     let mut pf = lat_profile();
     pf.kinds[6] = 3;
     pf.kinds[7] = 2;
+    pf.sat_pct = 30;
     PropSpec {
         id: "C12",
         profile: pf,
